@@ -127,7 +127,8 @@ def main():
                                      'worker subprocesses')],
         checks=checks,
         notes='Exit codes: 0 held on everything observed, 1 VIOLATION (replay file written), 2 INCONCLUSIVE (a deciding '
-              'monitor was not reached / worker watchdog). VERIF_SEED selects the workload; VERIF_REPO (default /repo) is '
+              'monitor was not reached / worker watchdog / more than max(2, cases/2000) cases that could not be judged - fewer are listed in a '
+              'NOTE line and in the evidence file, never counted as held). VERIF_SEED selects the workload; VERIF_REPO (default /repo) is '
               'the tree under test. Known findings: /verif/known_findings.json.',
         not_applicable=na)
     with open(os.path.join(HERE, 'MANIFEST.json'), 'w') as f:
